@@ -275,12 +275,104 @@ def job_tobqm(a):
     nm2 = f"C18.to_bqm.variables[{fmt},{key}]"
     dep = {x for x in names if any(_dep(tabs[b], names.index(x), n, mask) for b in rets)}
     declared = set(rets)
-    foreign = [v for v in pvars if v not in names and v not in declared]
-    missing = [v for v in dep if v not in pvars]
+    mentioned = poly.mentioned()
+    foreign = [v for v in mentioned if v not in names and v not in declared]
+    missing = [v for v in dep if v not in mentioned]
     if foreign or missing:
         out.append(res(nm2, REFUTED, replayed=True, replay=dict(program=src, variables=pvars, foreign=foreign, missing_argument_bits=missing), **base))
     else:
         out.append(res(nm2, PROVED, **base))
+    return out
+
+
+def job_family(a):
+    """the C01 L3 program family (tests / curated / generated; <= 8 argument bits) through to_bqm: min over the auxiliaries of the
+    energy = number of true return bits, on every input.  A deviation that is EXACTLY the behaviour of a listed finding (a return bit
+    that is a bare argument symbol contributes 0; nothing but constant return bits raises) is named after it; anything else is not."""
+    chunk, fmts = a
+    use_stub()
+    from qlasskit import qlassf
+    from qlasskit.qlassfun import UnboundQlassf
+    from qlasskit.boolopt.bool_optimizer import merge_expressions
+    from sympy import Symbol
+    from sympy.logic.boolalg import BooleanFalse, BooleanTrue
+    import hashlib
+    out = []
+    for origin, src in chunk:
+        key = hashlib.sha1(src.encode()).hexdigest()[:8]
+        base = dict(strength="bounded", backend="polynomial", program=src, instance_key=src)
+        if "Q." in src or "Parameter[" in src:
+            continue
+        try:
+            with bounded.time_budget(20):
+                qf = qlassf(src, to_compile=False)
+                if isinstance(qf, UnboundQlassf):
+                    continue
+                et = bounded.expr_tables(qf, 8)
+                if et is None:
+                    continue
+                names, tabs, mask = et
+                rets = list(qf.returns.bitvec)
+                if any(tabs.get(b) is None for b in rets):
+                    continue
+                merged = dict((s_.name, e_) for s_, e_ in merge_expressions(qf.expressions))
+        except bounded.Budget:
+            continue
+        except Exception:  # rejected programs: nothing to export
+            continue
+        n = len(names)
+        bare = [b for b in rets if isinstance(merged.get(b), Symbol)]
+        const = [b for b in rets if isinstance(merged.get(b), (BooleanTrue, BooleanFalse))]
+        for fmt in fmts:
+            shape = "plain"
+            name = lambda sh: f"C18.to_bqm.ground-states.family[{sh},{fmt},{origin},{key}]"  # noqa: E731
+            try:
+                with bounded.time_budget(30):
+                    try:
+                        m = qf.to_bqm(fmt)
+                    except bounded.Budget:
+                        raise
+                    except Exception as ex:  # noqa
+                        sh = "constant-return" if len(const) == len(rets) and isinstance(ex, AttributeError) and "compile" in str(ex) else "plain"
+                        out.append(res(name(sh), REFUTED, replayed=True, replay=dict(program=src, fmt=fmt, observed=f"raises {type(ex).__name__}: {ex}"[:200],
+                                                                                      call="qlassf(program, to_compile=False).to_bqm(fmt) against the PyQUBO stub"), **base))
+                        continue
+                    poly = m.poly if fmt == "pq_model" else m[1]
+                    pvars = poly.variables()
+                    aux = [v for v in pvars if v not in names]
+                    if len(aux) > 10:
+                        continue
+                    bad = None
+                    defect_only = True
+                    for r in range(1 << n):
+                        x = {nm: (r >> i) & 1 for i, nm in enumerate(names)}
+                        want = sum((tabs[b] >> r) & 1 for b in rets)
+                        known = sum((tabs[b] >> r) & 1 for b in rets if b not in bare)
+                        best = min(poly.energy({**x, **dict(zip(aux, av))}) for av in itertools.product((0, 1), repeat=len(aux)))
+                        if best != want:
+                            bad = bad or dict(input_bits=x, min_energy=best, true_return_bits=want)
+                            if best != known:
+                                defect_only = False
+                                bad = dict(input_bits=x, min_energy=best, true_return_bits=want)
+                                break
+                    if bad:
+                        sh = "bare-symbol-return" if (bare and defect_only) else "plain"
+                        out.append(res(name(sh), REFUTED, replayed=True,
+                                       replay=dict(program=src, fmt=fmt, polynomial=str(sorted((sorted(k), v) for k, v in poly.terms.items()))[:500], observed=bad,
+                                                   bare_symbol_return_bits=bare, expected="min over auxiliaries of the energy = number of true return bits, for every input",
+                                                   call="qlassf(program, to_compile=False).to_bqm(fmt) against the PyQUBO stub; polynomial evaluated on every assignment"), **base))
+                        continue
+                    dep = {x for x in names if any(_dep(tabs[b], names.index(x), n, mask) for b in rets)}
+                    mentioned = poly.mentioned()
+                    foreign = [v for v in mentioned if v not in names and v not in rets]
+                    missing = [v for v in dep if v not in mentioned]
+                    if foreign or missing:
+                        out.append(res(f"C18.to_bqm.variables.family[{fmt},{origin},{key}]", REFUTED, replayed=True,
+                                       replay=dict(program=src, fmt=fmt, variables=pvars, foreign=foreign, missing_argument_bits=missing), **base))
+                        continue
+                    out.append(res(name("plain"), PROVED, nontrivial=(0 < sum(bin(tabs[b] & mask).count("1") for b in rets) < len(rets) << n), **base))
+            except bounded.Budget:
+                continue
     return out
 
 
@@ -359,6 +451,11 @@ def run(tier, only=None):
             jobs.append((job_tobqm, (i, fmt)))
     jobs.append((job_misc, None))
     jobs += [(job_induct, "symbol"), (job_induct, "hole")]
+    from . import c01_l3
+    fam = [x for x in c01_l3.family(tier) if x[0] != "outside"]
+    fmts = ("pq_model",) if tier == "quick" else ("bqm", "ising", "qubo", "pq_model")
+    for lo in range(0, len(fam), 12):
+        jobs.append((job_family, (fam[lo:lo + 12], fmts)))
     rs = run_pool(_dispatch, jobs)
     cnt = sum(r["count"] for r in rs if r.get("name") == "vchunk")
     raised = sum(r["raised"] for r in rs if r.get("name") == "vchunk")
@@ -372,7 +469,7 @@ def run(tier, only=None):
     rep.under_contract(SympyToBQM.visit, to_bqm, decode_samples)
     rep.rule = "skeleton trees through SympyToBQM.visit and programs through to_bqm (all formats), against the PyQUBO stub; every polynomial evaluated on all 0/1 assignments"
     rep.extra.update(evaluations=cnt + len(PROGRAMS) * 4, distinct_nontrivial=cnt + len(PROGRAMS),
-                     bounded=dict(family="And/Xor/Or skeletons of arity 2-4 over literals and over 13 representative sub-terms, Not; 18 programs x 4 formats", bound="<= 4 holes, <= 10 argument bits", all_values=True))
+                     bounded=dict(family="And/Xor/Or skeletons of arity 2-4 over literals and over 13 representative sub-terms, Not; 27 programs x 4 formats; the C01 L3 program family (tests, curated, generated) with <= 8 argument bits through to_bqm (quick: pq_model, thorough: all four formats)", bound="<= 4 holes, <= 10 argument bits (family: <= 8)", all_values=True))
     rep.assumptions = ["A6 PyQUBO is absent: the check runs against /verif/stubs/pyqubo, whose polynomial semantics of Binary/And/Or/Not/Xor/*Const is taken from PyQUBO's documentation - an ASSUMED contract on a dependency",
                        "compile() of the stub does not reduce the degree: the model is the polynomial of the expression tree qlasskit hands over (the property's observe_at); format conversions are the dependency's business",
                        "bounded family"]
